@@ -35,6 +35,23 @@ Theorem C17_no_lost_reply : forall c s, good c = true -> reachable c s -> forall
   (exists r, st q = RDone r /\ rid r = id) \/ (st q = RCancelled /\ mem (call q) (cancelled s) = true).
 Proof. exact no_lost_reply. Qed.
 
+(* ... where "arrives" means: reaches the lookup. Before the lock onResponse can drop a message at exactly the pinned early
+   returns (stream read error, envelope does not decode, no handler registered for the procedure, rate limiter error): in the
+   model these are the [RespondBad] messages, whose only step is [Drop]; it changes nothing but the goroutine itself, and such a
+   goroutine can neither take resMu nor deliver. So: arrived in time /\ well-formed /\ known procedure /\ limiter passes
+   ==> delivered (C17_no_lost_reply), and nothing else is dropped before the lock (the list is regenerated from the source). *)
+Theorem C17_drops_before_lock_are_the_pinned_ones :
+  gen_onresp_drops = onresp_drops_modelled /\ gen_onreq_drops = onreq_drops_modelled.
+Proof. vm_compute. split; reflexivity. Qed.
+
+Theorem C17_drop_only_bad_and_inert : forall c s t s', step c s (Drop t) = Some s' ->
+  (exists th, get (thrs s) t = Some th /\ tpc th = TBad) /\ reqs s' = reqs s /\ chans s' = chans s /\ mu s' = mu s.
+Proof. exact drop_only_bad. Qed.
+
+Theorem C17_bad_message_never_reaches_lookup : forall c s t th, get (thrs s) t = Some th -> tpc th = TBad ->
+  step c s (Lock t) = None /\ step c s (Deliver t) = None.
+Proof. exact bad_thread_inert. Qed.
+
 (* progress: the goroutine holding resMu is never blocked *)
 Theorem C17_progress_lock_holder_never_blocked : forall c s, good c = true -> reachable c s ->
   forall t, mu s = Some t -> step c s (Deliver t) <> None.
